@@ -767,6 +767,21 @@ def run(repo, tier):
         from ..comprel import CompRel, check_literal_blind
         check_literal_blind(rep, CompRel(facts), 'R11.6.literal-blind')
     guarded(literal_blind)
+
+    def expression_text():
+        # the expression that is evaluated is the expression that was written: the lexer may only cut the line at `#`; a comment
+        # pattern that can also start elsewhere (`//`, `;`) removes operators of the expression (`100 // 7` becomes `100`).
+        # The rule is the lexer rule of C13; its findings about the comment substitution are taken over under R11.7
+        from .. import lexrules
+        scratch = Report('C11', LEVEL, '')
+        lexrules.check_lexer(scratch, facts)
+        for f in scratch.findings:
+            if f.rule == 'R13.4.comment-start':
+                f.rule = 'R11.7.expression-text'
+                rep.fail(f, instance='comments start at # only')
+        if not any(f.rule == 'R11.7.expression-text' for f in rep.findings):
+            rep.ok('R11.7.expression-text', 'comments start at # only (no operator of an expression is cut away)', nontrivial=False)
+    guarded(expression_text)
     if und and not rep.findings:
         raise AnalysisError(und[0] + (' (+{} more)'.format(len(set(und)) - 1) if len(set(und)) > 1 else ''))
     rep.floor('Arithmetic.eval return paths', 2)
